@@ -20,6 +20,8 @@ from bridge_env.data_handler.json_handler.parser import hands_parser
 from bridge_env.data_handler.json_handler.writer import convert_deal
 
 from .. import adapt
+_NP_MORE = (np.float32, np.uint8, np.int64, np.float64, np.int8, np.float16, np.uint16)
+_NP_ROT = [0]
 from ..core import Counter, Result, merge_all, pmap
 from ..ref import pbn as RP
 from ..ref.protocol import card_name
@@ -95,12 +97,13 @@ def check_deal(deal: Dict[str, frozenset], c: Counter, tag: str, partial: bool =
         back(Hands.convert_binary(b), 'binary')
     except Exception as e:  # noqa
         c.violate(f'binary-raise:{tag}', f'tuple binary: {type(e).__name__}: {e}', rp)
-    # numpy binary, two dtypes
-    for dt in (np.int32, np.float32):
+    # numpy binary: the default dtype, booleans (the narrowest dtype an indicator fits in), and two more taken in rotation
+    _NP_ROT[0] += 1
+    for dt in (np.int32, np.bool_, _NP_MORE[_NP_ROT[0] % len(_NP_MORE)], _NP_MORE[(_NP_ROT[0] // len(_NP_MORE) + 3) % len(_NP_MORE)]):
         try:
             nb = h.to_np_binary(dt) if dt is not np.int32 else h.to_np_binary()
             for p, v in nb.items():
-                if not (isinstance(v, np.ndarray) and v.shape == (52,) and v.dtype == dt and [int(x) for x in v] == [1 if i in deal[p.name] else 0 for i in range(52)]):
+                if not (isinstance(v, np.ndarray) and v.shape == (52,) and v.dtype == np.dtype(dt) and [int(x) for x in v] == [1 if i in deal[p.name] else 0 for i in range(52)]):
                     c.violate(f'np-vector:{tag}', f'to_np_binary({dt.__name__})[{p.name}] is not the 52-slot indicator array', rp)
                     break
             back(Hands.convert_np_binary(nb), f'np-{dt.__name__}')
@@ -299,7 +302,7 @@ def run(tier, seed, workers):
                 '(ii) all 15 void patterns per seat and all 24 assignments of complete suits to seats; (iii) all 16 empty/full patterns of partial deals; (iv) encode, mutate (empty a hand / '
                 'remove one card per seat), re-encode on the same Hands object; (v) generate_random_hands with random.shuffle replaced by each of the 52 rotations and 1326 transpositions. '
                 'Every deal: to_pbn from each of the 4 first seats == canonical text (S.H.D.C, ranks high to low, void = empty field, empty hand = "-") and convert_pbn back; to_binary == indicator '
-                'tuples and convert_binary back; to_np_binary (int32 default, float32) == indicator arrays and convert_np_binary back; convert_deal == ascending card lists and hands_parser back',
+                'tuples and convert_binary back; to_np_binary (int32 default, bool, and float32 / uint8 / int64 / float64 / int8 / float16 / uint16 in rotation) == indicator arrays and convert_np_binary back; convert_deal == ascending card lists and hands_parser back',
         'samples': [{'seat': 'N', 'suit': 'S', 'holding': 'AQT8642 (mask 0b1010101010101)'}, {'void pattern': 'E void in S and D'}, {'partial': 'N and W empty'},
                     {'dealer': 'pack with cards 3 and 40 swapped'}],
         'exhaustive': False,
